@@ -1332,8 +1332,29 @@ func (il *inliner) elideStructCopy(fn *ssa.Function) bool {
 			if !ok || st.Val != ssa.Value(load) {
 				continue
 			}
-			dst, ok := st.Addr.(*ssa.Alloc)
-			if !ok || dst == tmp || !instrDominates(dst, tmp) {
+			var dst ssa.Value
+			var dstIn ssa.Instruction
+			switch d := st.Addr.(type) {
+			case *ssa.Alloc:
+				dst, dstIn = d, d
+			case *ssa.FieldAddr:
+				// a field of a variable being built (`T{Embedded: helper()}`): take the field's address as soon as the
+				// variable exists, so that it is available where the temporary was filled
+				if len(*d.Referrers()) != 1 {
+					continue
+				}
+				if !instrDominates(d, tmp) {
+					base, isAlloc := d.X.(*ssa.Alloc)
+					if !isAlloc || !instrDominates(base, tmp) {
+						continue
+					}
+					moveAfter(d, base)
+				}
+				dst, dstIn = d, d
+			default:
+				continue
+			}
+			if dst == ssa.Value(tmp) || !instrDominates(dstIn, tmp) {
 				continue
 			}
 			for _, r := range *dst.Referrers() {
@@ -1888,4 +1909,26 @@ func (il *inliner) isDead(fn *ssa.Function) bool {
 		}
 	}
 	return false
+}
+
+// moveAfter moves the (pure) instruction in to the position right after anchor.
+func moveAfter(in, anchor ssa.Instruction) {
+	b := in.Block()
+	var out []ssa.Instruction
+	for _, x := range b.Instrs {
+		if x != in {
+			out = append(out, x)
+		}
+	}
+	b.Instrs = out
+	ab := anchor.Block()
+	var res []ssa.Instruction
+	for _, x := range ab.Instrs {
+		res = append(res, x)
+		if x == anchor {
+			res = append(res, in)
+		}
+	}
+	ab.Instrs = res
+	setInstrBlock(in, ab)
 }
